@@ -155,6 +155,15 @@ impl NameMap {
 
         let mut used_names_all_scopes = reserved_name_set.clone();
 
+        // Names from the source in any scope are not picked as generated names
+        // A generated name in an outer scope would otherwise be hidden where an inner scope uses the same name
+        let mut all_source_names = HashSet::new();
+        for scope in &scopes {
+            for name in scope.1.keys() {
+                all_source_names.insert(name.clone());
+            }
+        }
+
         for scope in &scopes {
             // Record used names within the current scope
             // Names may be reused in different namespaces
@@ -190,7 +199,9 @@ impl NameMap {
                         loop {
                             let candidate = format!("{}_{}", name, counter);
 
-                            if used_names.insert(candidate.clone()) {
+                            if !all_source_names.contains(&candidate)
+                                && used_names.insert(candidate.clone())
+                            {
                                 used_names_all_scopes.insert(candidate.clone());
                                 break candidate;
                             }
